@@ -15,6 +15,11 @@ RULE = ("EXHAUSTIVE enumeration of all placements of one sampling site inside ne
 FLAGS = ["grad-inlines-sampler", "vmap-unbatched-replicates"]
 
 
+DEEP = [("grad", "mvmap", "jit"), ("grad", "mvmap", "jit", "scan"), ("grad", "mvmap", "scan", "jit"), ("grad", "mvmap", "cond", "jit"),
+        ("grad", "jit", "mvmap", "jit"), ("jit", "grad", "mvmap", "jit"), ("grad", "mvmap", "mvmap", "jit"), ("grad", "mvmap", "jit", "mvmap"),
+        ("grad", "scan", "mvmap", "jit"), ("grad", "mvmap", "scan"), ("grad", "vmap_u", "jit"), ("mvmap", "jit", "grad"), ("mvmap", "grad", "jit")]
+
+
 def required_ok(placement, seeded, outcome):
     """the property's requirement, stated directly"""
     has_compile = any(c in lowering.COMPILING for c in placement)
@@ -86,6 +91,8 @@ def run(ctx, audit):
         ctx.rng.shuffle(d3)
         pls = all_[0] + all_[1] + d2[:34] + d3[:10]
         exhaustive_depth = 1
+    # depth-4 placements around rule (vii) of the model (modular_vmap over a nested jit under grad), always run
+    pls = pls + [p for p in DEEP if p not in pls]
     adev = all_[0] + [p for p in all_[1] if p[0] != "grad"] + ([p for p in all_[2] if "grad" not in p][::5] if ctx.thorough else [])
     n = 13
     shards = [(pls[i::n], "plain") for i in range(n)] + [(adev, "adev")]
